@@ -102,6 +102,9 @@ func txnProgram(j int, tx TxnSpec, uniq int) []string {
 			s = append(s, fmt.Sprintf("WITH w (id, n) AS (SELECT id, n + 1 FROM %s WHERE id = %d) REPLACE INTO %s (id, n) USING (id) SELECT id, n FROM w;", t, tx.Key, t))
 		case 5:
 			s = append(s, fmt.Sprintf("WITH w AS (SELECT id, n FROM %s WHERE id = %d) UPDATE x SET x.n = w.n + 1 FROM %s x JOIN w ON x.id = w.id;", t, tx.Key, t))
+		case 6:
+			// ... or in a sub-query of the FROM clause that stands before the target table
+			s = append(s, fmt.Sprintf("UPDATE x SET x.n = q.m FROM (SELECT n + 1 AS m FROM %s WHERE id = %d) q CROSS JOIN %s x WHERE x.id = %d;", t, tx.Key, t, tx.Key))
 		default:
 			s = append(s, fmt.Sprintf("UPDATE %s SET n = n + 1 WHERE id = %d;", t, tx.Key))
 		}
@@ -127,6 +130,12 @@ func txnProgram(j int, tx TxnSpec, uniq int) []string {
 			// every table of the FROM clause is held, not only the first: the counter
 			// table is reached through a join with the one-row table one.csv
 			s = append(s, fmt.Sprintf("ECHO '@Q %d.%d';", j, 1), fmt.Sprintf("SELECT x.id, x.n FROM one y JOIN %s x ON y.k = 1 FOR UPDATE;", t))
+		} else if tx.Form == 2 {
+			// what the statement that takes the hold prints is the held state, also when it reads the
+			// table through its WITH clause or through a sub-query standing before the table
+			s = append(s, fmt.Sprintf("ECHO '@Q %d.%d';", j, 1), fmt.Sprintf("WITH w AS (SELECT id, n FROM %s) SELECT x.id, w.n FROM %s x JOIN w ON x.id = w.id FOR UPDATE;", t, t))
+		} else if tx.Form == 3 {
+			s = append(s, fmt.Sprintf("ECHO '@Q %d.%d';", j, 1), fmt.Sprintf("SELECT x.id, q.n FROM (SELECT id, n FROM %s) q JOIN %s x ON x.id = q.id FOR UPDATE;", t, t))
 		} else {
 			s = append(s, sel(1, " FOR UPDATE")...)
 		}
@@ -259,12 +268,15 @@ func genCounterScenario(prop string, seed uint64, tier string, maxProcs int) (*S
 			tx := TxnSpec{Kind: kinds[r.Intn(len(kinds))], Table: tb, Key: r.Range(1, meta.Rows[tb]), Commit: r.Bool(0.85)}
 			if tx.Kind == "forupd" && r.Bool(0.4) {
 				tx.Form = 1
+				if prop == "C09" {
+					tx.Form = r.Pick(1, 1, 2, 3)
+				}
 			}
 			if tx.Kind == "forupd" && r.Bool(0.35) {
 				tx.Noop = r.Pick(1, 2, 3)
 			}
 			if tx.Kind == "inc" && r.Bool(0.4) {
-				tx.Form = r.Pick(1, 2, 3, 4, 5)
+				tx.Form = r.Pick(1, 2, 3, 4, 5, 6)
 			}
 			if tx.Kind == "ins" && r.Bool(0.3) {
 				tx.Form = 1
